@@ -591,6 +591,16 @@ func (tr *trans) call(v ssa.Value, c *ssa.CallCommon, st State) {
 	// call through a struct field of function type: contract keyed by pkg.Struct.field
 	if key := funcFieldKey(c.Value); key != "" {
 		if fc := tr.prog.CS.Funcs[key]; fc != nil {
+			// `recv` in the contract of a function-typed field: the object whose field is called
+			if u, ok := c.Value.(*ssa.UnOp); ok {
+				if fa, ok := u.X.(*ssa.FieldAddr); ok {
+					if _, done := tr.vals[fa.X]; done {
+						e0 := &Env{tr: tr, vc: tr.vc, errs: &tr.errs}
+						tr.extraCallVars = map[string]SV{"recv": e0.goSV(tr.val(fa.X), fa.X.Type())}
+						defer func() { tr.extraCallVars = nil }()
+					}
+				}
+			}
 			rs := tr.applyContract(fc, sig, key, nil, nil, args, st, pos, nil)
 			tr.setResults(v, rs)
 			tr.note("assumed contract of function-typed field " + key + " (its implementations are checked where they are under contract)")
